@@ -471,6 +471,20 @@ def run(chk, replay=None):
                     if d['u'] % 4 != 2:
                         chk.nontrivial('binscript|%s|%s|%d' % (wt, name, d['u']))
 
+    # ---------------------------------------------------------------- 5c. injected random numbers for a catalog without events
+    # (no event to place: every simulated catalog is empty, every simulated statistic is the observed one, the quantile is 1)
+    fc0 = B.forecast(numpy.array([[0.2, 0.0], [0.7, 0.01], [0.0, 0.3]]))
+    cat0 = B.catalog([[0, 0], [0, 0], [0, 0]], 3, 2)
+    for label, fn in (('poisson CL', pe.conditional_likelihood_test), ('poisson S', pe.spatial_test), ('poisson M', pe.magnitude_test)):
+        for rn0 in (numpy.zeros((3, 0)), numpy.empty((3, 0), dtype=numpy.float32)):
+            r0 = guarded_timeout(20, fn, fc0, cat0, num_simulations=3, random_numbers=rn0)
+            chk.count(3)
+            if isinstance(r0, Raised) or [float(x) for x in r0.test_distribution] != [float(r0.observed_statistic)] * 3 or float(r0.quantile) != 1.0:
+                chk.violation('%s:injected numbers for an empty catalog' % label,
+                              {'got': repr(r0) if isinstance(r0, Raised) else {'dist': [float(x) for x in r0.test_distribution],
+                                                                              'obs': float(r0.observed_statistic), 'quantile': float(r0.quantile)}})
+                break
+        chk.nontrivial('empty-injection|%s' % label)
     # ---------------------------------------------------------------- 6. determinism per seed (including 0)
     rates = numpy.array([[0.2, 0.0, 1.5], [0.7, 0.01, 0.0], [0.0, 0.3, 0.9]])
     fc = B.forecast(rates)
